@@ -42,6 +42,13 @@ class Talk:
             sys.stdout.flush()
         print(f'OUT2-{n}-X')
         print(f'ERR-{n}-X', file=sys.stderr)
+        if self.mode == 'same':
+            sys.stderr.flush()
+            sys.stdout.flush()
+            print('SAME-STDERR-BLOCK-X', file=sys.stderr)       # a flushed block whose text is identical in every task: each copy must arrive
+            sys.stderr.flush()
+            print('SAME-STDOUT-BLOCK-X')
+            sys.stdout.flush()
         if self.mode == 'partial':
             print(f'PART-{n}-X', end='', flush=True)          # unterminated text flushed, completed later
             print(f' REST-{n}-X')
@@ -93,6 +100,10 @@ def check(backend, tasks, label):
     finally:
         labtech.logger.removeHandler(h)
     text = '\n'.join(got)
+    n_same = sum(1 for t in tasks if t.mode == 'same')
+    for tag in ('SAME-STDERR-BLOCK-X', 'SAME-STDOUT-BLOCK-X'):
+        if n_same and text.count(tag) != n_same:
+            return f'[{backend}/{label}] {n_same} tasks each printed the identical line {tag!r}; it was delivered {text.count(tag)} times'
     for t in tasks:
         for tag in t.tokens():
             n = text.count(tag)
@@ -108,6 +119,9 @@ def scenarios(tier):
           ('unterminated-then-completed', [Talk('a', 0.0, 1, 'partial'), Talk('b', 0.2, 0, 'partial')]),
           ('no-trailing-newline', [Talk('a', 0.0, 0, 'tail')]),
           ('failing-task-printed-first', [Talk('a', 0.0, 0, 'fail'), Talk('b')]),
+          ('failing-task-finishes-last', [Talk('b'), Talk('a', 0.5, 0, 'fail')]),
+          ('only-task-fails', [Talk('a', 0.0, 0, 'fail')]),
+          ('identical-output-from-several-tasks', [Talk('a', 0.0, 0, 'same'), Talk('b', 0.1, 0, 'same'), Talk('c', 0.2, 0, 'same')]),
           ('chatty-last-finisher', [Talk('a'), Talk('b', 0.3, 0, 'lines', 1500)]),
           ('two-chatty-finish-together', [Talk('a', 0.2, 0, 'lines', 700), Talk('b', 0.2, 0, 'lines', 700)])]
     if tier != 'quick':
